@@ -108,6 +108,48 @@ def build(rng, tier, rec):
             cls = "reshape/tt/%s/%s%s" % ("same" if src == dst else "merge+split", "singletons" if 1 in src + dst else "plain", "/trailing1-src" if src[-1] == 1 else "")
             cases.append(Case(None, impl, value_oracle(box, lambda dx=dx, dst=dst: dx.reshape(dst), dst, None, eps or 1e-16, "reshape"), cls, src != dst,
                               desc="reshape N=%s -> %s eps=%s %s" % (src, dst, eps, dt)))
+    # deterministic family: complex data, source ending in size-1 modes whose cores carry a phase, targets that drop / merge / keep them
+    # (tensors and operators) — the unit cores left behind by the orthogonalisation sweep hold the phase of the tensor
+    fam = [([4, 6, 1], [4, 6]), ([4, 6, 1], [24]), ([4, 6, 1], [2, 2, 6]), ([4, 6, 1, 1], [8, 3, 1]), ([2, 3, 1], [3, 2]), ([6, 1, 1], [2, 3]), ([1, 6, 1], [6])]
+    for fi, (src, dst) in enumerate(fam):
+        g = tn.Generator().manual_seed(rng.randrange(1 << 30))
+        R = [1] + [rng.randint(1, 3) for _ in range(len(src) - 1)] + [1]
+        cs = [tn.complex(tn.randn([R[k], src[k], R[k + 1]], generator=g, dtype=tn.float64), tn.randn([R[k], src[k], R[k + 1]], generator=g, dtype=tn.float64)) for k in range(len(src))]
+        x = torchtt.TT(cs)
+        dx = dense_of(x)
+        box = {}
+
+        def impl(x=x, dst=dst, box=box):
+            box["r"] = torchtt.reshape(x, list(dst))
+            return "ok"
+        cases.append(Case(None, impl, value_oracle(box, lambda dx=dx, dst=dst: dx.reshape(dst), dst, None, 1e-16, "reshape"), "reshape/tt/complex-trailing-units/%d" % fi, True,
+                          desc="reshape complex N=%s -> %s" % (src, dst)))
+    famM = [([4, 2, 1], [4, 2, 1], [4, 2], [4, 2]), ([2, 1], [3, 1], [2], [3]), ([2, 2, 1, 1], [2, 3, 1, 1], [4, 1], [6, 1]), ([2, 2, 1], [2, 2, 1], [2, 2], [2, 2])]
+    for fi, (sM, sN, dM, dN) in enumerate(famM):
+        g = tn.Generator().manual_seed(rng.randrange(1 << 30))
+        R = [1] + [rng.randint(1, 2) for _ in range(len(sM) - 1)] + [1]
+        cs = [tn.complex(tn.randn([R[k], sM[k], sN[k], R[k + 1]], generator=g, dtype=tn.float64), tn.randn([R[k], sM[k], sN[k], R[k + 1]], generator=g, dtype=tn.float64)) for k in range(len(sM))]
+        A = torchtt.TT(cs)
+        dA = dense_of(A)
+        box = {}
+        shape = [(a, b) for a, b in zip(dM, dN)]
+
+        def impl(A=A, shape=shape, box=box):
+            box["r"] = torchtt.reshape(A, list(shape))
+            return "ok"
+        cases.append(Case(None, impl, value_oracle(box, lambda dA=dA, dM=dM, dN=dN: dA.reshape(dM + dN), dN, dM, 1e-16, "reshape(operator)"),
+                          "reshape/ttm/complex-trailing-units/%d" % fi, True, desc="reshape complex operator M=%s N=%s -> %s" % (sM, sN, shape)))
+        if sM == sN and all(v in (1, 2, 4) for v in sM):
+            box2 = {}
+            q = []
+            for v in sM:
+                q += [2] * {1: 0, 2: 1, 4: 2}[v]
+
+            def impl2(A=A, box2=box2):
+                box2["r"] = A.to_qtt()
+                return "ok"
+            cases.append(Case(None, impl2, value_oracle(box2, lambda dA=dA, q=q: dA.reshape(q + q), q, q, 1e-12, "to_qtt(operator)"),
+                              "to_qtt/ttm/complex-trailing-units/%d" % fi, True, desc="to_qtt complex operator M=N=%s" % (sM,)))
     # operators
     for _ in range(8 if tier == "quick" else 60):
         m, n = rng.choice([(4, 6), (6, 4), (8, 4), (4, 4), (6, 6), (12, 2)])
